@@ -12,7 +12,7 @@ Property oracle (on the implementation only, independent of Lean and of rdflib.c
     (hext: both sides first mapped through the RDF 1.1 identification simple literal = xsd:string),
     and every serialisation returns (per-format watchdog; the core watchdog backs it up).
 Violation tags:  rt-<fmt> (graph differs), ser-<fmt> (serializer raised), parse-<fmt> (rdflib cannot read its own
-output), hang-<fmt> (no return within FMT_TIMEOUT_S), timeout (core watchdog); rt2-/ser2-/parse2-/hang2-<fmt> for the
+output), hang-<fmt> (no return within FMT_TIMEOUT_S of CPU time, wall-clock backstop x10), timeout (core watchdog); rt2-/ser2-/parse2-/hang2-<fmt> for the
 second round of a two-round case ("round2": the same Graph object is serialised again after one of the prefixes the
 first round generated or used has been re-bound to another namespace and a triple in that namespace was added).
 
@@ -38,6 +38,7 @@ from __future__ import annotations
 import hashlib
 import json
 import logging
+import os as _os
 import re as _re_mod
 import signal
 import time
@@ -98,24 +99,40 @@ class _FmtTimeout(Exception):
     pass
 
 
+WALL_BACKSTOP_FACTOR = 10.0
+
+
 def _with_timeout(fn, seconds):
-    """Run fn() under a nested SIGALRM timer; restores the enclosing (core) watchdog afterwards."""
-    old_handler = signal.getsignal(signal.SIGALRM)
-    remaining, _ = signal.getitimer(signal.ITIMER_REAL)
-    t0 = time.time()
+    """Run fn() under a nested watchdog that counts CPU time (ITIMER_VIRTUAL / SIGVTALRM: a loop that never ends burns
+    CPU, and the verdict does not depend on how loaded the machine is), with a wall-clock backstop of
+    `seconds * WALL_BACKSTOP_FACTOR` (blocking waits burn no CPU).  Both limits scale with VERIF_TIMEOUT_SCALE.
+    The enclosing core watchdog (ITIMER_PROF / SIGPROF for CPU, ITIMER_REAL / SIGALRM as its wall backstop) keeps
+    running untouched, except that ITIMER_REAL / SIGALRM is borrowed for the nested backstop when that one would fire
+    first; handler, remaining time and repeat interval are restored afterwards."""
+    scale = float(_os.environ.get("VERIF_TIMEOUT_SCALE", "1"))
+    cpu, wall = seconds * scale, seconds * scale * WALL_BACKSTOP_FACTOR
 
     def h(_s, _f):
         raise _FmtTimeout()
 
-    signal.signal(signal.SIGALRM, h)
-    signal.setitimer(signal.ITIMER_REAL, seconds)
+    old_vt = signal.signal(signal.SIGVTALRM, h)
+    outer_left, outer_every = signal.getitimer(signal.ITIMER_REAL)
+    borrow = outer_left <= 0 or wall < outer_left
+    t0 = time.monotonic()
+    if borrow:
+        old_alrm = signal.signal(signal.SIGALRM, h)
+        signal.setitimer(signal.ITIMER_REAL, wall)
+    signal.setitimer(signal.ITIMER_VIRTUAL, cpu)
     try:
         return fn()
     finally:
-        signal.setitimer(signal.ITIMER_REAL, 0)
-        signal.signal(signal.SIGALRM, old_handler)
-        if remaining > 0:
-            signal.setitimer(signal.ITIMER_REAL, max(0.05, remaining - (time.time() - t0)))
+        signal.setitimer(signal.ITIMER_VIRTUAL, 0)
+        signal.signal(signal.SIGVTALRM, old_vt)
+        if borrow:
+            signal.setitimer(signal.ITIMER_REAL, 0)
+            signal.signal(signal.SIGALRM, old_alrm)
+            if outer_left > 0:
+                signal.setitimer(signal.ITIMER_REAL, max(0.05, outer_left - (time.monotonic() - t0)), outer_every)
 
 
 def _hext_norm(ts):
@@ -329,7 +346,7 @@ def roundtrip(g, fmt, base, orig=None, opts=None, io=None):
         try:
             text = _with_timeout(lambda: _serialize_io(g, fmt, kw, io, tmp), FMT_TIMEOUT_S)
         except _FmtTimeout:
-            return "hang", f"serialize(format={fmt!r}) did not return within {FMT_TIMEOUT_S}s on a finite graph", None
+            return "hang", f"serialize(format={fmt!r}) did not return within {FMT_TIMEOUT_S}s of CPU time on a finite graph", None
         except RecursionError as e:
             return "ser", _io_note(io) + _exc(e), None
         except Exception as e:
@@ -345,7 +362,7 @@ def roundtrip(g, fmt, base, orig=None, opts=None, io=None):
         try:
             h = _with_timeout(lambda: _parse_io(text, fmt, pkw, io, tmp), FMT_TIMEOUT_S)
         except _FmtTimeout:
-            return "hang", f"parse of own {fmt} output did not return within {FMT_TIMEOUT_S}s", text
+            return "hang", f"parse of own {fmt} output did not return within {FMT_TIMEOUT_S}s of CPU time", text
         except Exception as e:
             return "parse", _io_note(io) + _exc(e), text
     finally:
@@ -578,7 +595,7 @@ def top_statements(text, bmap):
     return out
 
 
-def _choice_lines(g, kw):
+def _choice_lines(g, texts):
     """the recursive writer's own choice, per graph and per format: which blank nodes got no label, and the top-level
     statements in the order written — read off the text, compared with the model's `choice`"""
     enc = _encode_choice(g)
@@ -588,9 +605,8 @@ def _choice_lines(g, kw):
     line = f"choice {ordw} {' '.join(toks)}"
     lines = []
     for fmt in ("turtle", "longturtle", "n3"):
-        try:
-            text = _with_timeout(lambda: g.serialize(format=fmt, **kw), FMT_TIMEOUT_S)
-        except Exception:
+        text = texts.get(fmt)
+        if text is None:
             continue
         hidden = sorted(bmap[b] for b in set(bmap) - labelled_bnodes(text))
         hs = ",".join(f"b{b}" for b in hidden) or "-"
@@ -634,15 +650,17 @@ def _struct_probe(spec):
             lines.append((f"vl b{bmap[h]} {gtxt}", exp))
     # which blank nodes the writers left unlabelled must satisfy Pre
     kw = {"base": spec["base"]} if spec.get("base") else {}
+    texts = {}
     for fmt in ("turtle", "longturtle", "n3"):
         try:
             text = _with_timeout(lambda: g.serialize(format=fmt, **kw), FMT_TIMEOUT_S)
         except Exception:
             continue
+        texts[fmt] = text
         hidden = sorted(set(bmap) - labelled_bnodes(text), key=lambda b: bmap[b])
         hs = ",".join(f"b{bmap[b]}" for b in hidden) or "-"
         lines.append((f"pre {hs} {gtxt}", "ok"))
-    lines += _choice_lines(g, kw)
+    lines += _choice_lines(g, texts)
     return lines
 
 
@@ -913,7 +931,7 @@ def _reuse(g, spec, ru, stats):
         try:
             _with_timeout(lambda: ser.serialize(buf, base=call.get("base"), encoding=call.get("enc"), **kw), FMT_TIMEOUT_S)
         except _FmtTimeout:
-            out.append(f"hang-{fmt}: {note}serialize did not return within {FMT_TIMEOUT_S}s")
+            out.append(f"hang-{fmt}: {note}serialize did not return within {FMT_TIMEOUT_S}s of CPU time")
             continue
         except Exception as e:
             out.append(f"ser-{fmt}: {note}{_exc(e)}")
@@ -922,7 +940,7 @@ def _reuse(g, spec, ru, stats):
         try:
             h = _with_timeout(lambda: Graph().parse(data=buf.getvalue(), format=PARSE_AS.get(fmt, fmt), **pkw), FMT_TIMEOUT_S)
         except _FmtTimeout:
-            out.append(f"hang-{fmt}: {note}parse of own output did not return within {FMT_TIMEOUT_S}s")
+            out.append(f"hang-{fmt}: {note}parse of own output did not return within {FMT_TIMEOUT_S}s of CPU time")
             continue
         except Exception as e:
             out.append(f"parse-{fmt}: {note}{_exc(e)}")
@@ -1190,8 +1208,9 @@ def gen_options(rng, spec):
         o["longturtle"] = lt
     for fmt in ("xml", "pretty-xml"):
         x = {}
-        if spec.get("base") is None and some(0.2):
-            x["xml_base"] = rng.choice(["http://ex.org/a/", "http://example.org/doc/x", "http://ex.org/q?x=1&y=2"])
+        if some(0.2):        # also next to a base= (round g: the two may name different IRIs, finding F42)
+            x["xml_base"] = rng.choice(["http://ex.org/a/", "http://example.org/doc/x", "http://ex.org/q?x=1&y=2"]
+                                       + ([spec["base"]] * 2 if spec.get("base") else []))
         if fmt == "pretty-xml" and some(0.45):
             x["max_depth"] = rng.choice([1, 1, 2, 5, 8, 50])
         if x:
